@@ -93,11 +93,13 @@ def run(ctx):
         return None                                 # reported by C03.byte-source / pid-latch / crc-second-byte below
     PIDR, CRC2 = reg_shown(P, 'PID'), reg_shown(C2, 'second CRC byte')
     lp = ir.drivers(PIDR, exact=True) if PIDR else []
-    ok = len(lp) == 1 and q.state_of(lp[0]) == idle and not lp[0].guard and lp[0].rhs.op == 'arr' and lp[0].rhs.args[0].canon() == 'self.data_pid'
+    # the PID is looked up by data_pid -- `Array(...)[data_pid]` or one constant per value of data_pid (Switch / If chain)
+    ct = q.const_table(lp, 'self.data_pid') if lp else None
+    ok = ct is not None and all(q.state_of(a) == idle for a in ct[1]) and not ct[2]
     ctx.ob('C03.pid-latch', 'USBDataPacketGenerator.current_data_pid', ok, lp[0].loc if lp else None, 'the DATA PID is chosen by data_pid and latched only in idle: %s' % [q.fmt(a) for a in lp])
     if ok:
-        tbl = [x.val for x in lp[0].rhs.args[1:]]
-        ctx.need(all(isinstance(v, int) for v in tbl), 'constant entries of the PID table (found %s)' % [x.canon() for x in lp[0].rhs.args[1:]])
+        tbl = ct[0]
+        ctx.need(all(isinstance(v, int) for v in tbl), 'constant entries of the PID table (found %s)' % tbl)
         ctx.ob('C03.pid-table', 'USBDataPacketGenerator.pid-table', tbl == [0xC3, 0x4B, 0x87, 0x0F], lp[0].loc,
                'PID bytes for DATA0/DATA1/DATA2/MDATA must be C3/4B/87/0F, found %s' % [hex(v) if isinstance(v, int) else v for v in tbl])
     w = getattr(ir.signals.get('self.data_pid'), 'w', None)
